@@ -183,6 +183,14 @@ def insert_unsupported(draw, root, n_min=1, n_max=3):
         kind = draw(st.sampled_from(UNSUPPORTED))
         cands = _containers(root, _GROUPISH)
         parent, _ = cands[draw(st.integers(0, len(cands) - 1))]
-        parent["c"].insert(draw(st.integers(0, len(parent["c"]))), _unsupported_node(draw, kind, k))
+        new = _unsupported_node(draw, kind, k)
+        clip_ids = [n["a"]["id"] for n in _elements(root) if n["tag"] == "clipPath" and "id" in n["a"]]
+        if clip_ids and kind in ("image", "text", "a", "switch", "foreignObject", "unknown") and draw(st.integers(0, 2)) == 0:
+            # an unsupported element may use the document's clip paths and transforms like any other graphics element
+            new["a"]["clip-path"] = f"url(#{draw(st.sampled_from(clip_ids))})"
+            if draw(st.booleans()):
+                new["a"]["transform"] = "translate(3 4)"
+            labels.append(f"unsupported-clipped:{kind}")
+        parent["c"].insert(draw(st.integers(0, len(parent["c"]))), new)
         labels.append(f"unsupported:{kind}@{parent['tag']}")
     return labels
